@@ -347,21 +347,21 @@ theorem C12_gen_genbank_columns :
     0 < Gen.C12.symbolsPerChunk ∧ 0 < Gen.C12.chunksPerLine := by
   decide
 
-/-! ## Pass 7: more of the model's literals regenerated from the source (`ast`) and compared -/
+/-! ## Pass 7/8: more of the model's literals regenerated from the source (`ast`, normalised form) and compared -/
 
-/-- FASTA / FASTQ line-start characters of the current source are the ones the model tests, in the
-order it tests them, and the model reacts to exactly these characters. -/
+/-- FASTA / FASTQ line-start characters of the current source are the ones the model tests, and
+the model reacts to exactly these characters. -/
 theorem C12_gen_line_start_chars :
     Gen.C12.fastaHeaderChar = '>' ∧ Gen.C12.fastaCommentChar = ';' ∧ Gen.C12.fastaHeaderPrefix = '>' ∧
-    Gen.C12.fastqLineStartChars = ['@', '+'] ∧ Gen.C12.fastqIdPrefix = '@' ∧
+    Gen.C12.fastqLineStartChars = ['+', '@'] ∧ Gen.C12.fastqIdPrefix = '@' ∧
     isHdr [Gen.C12.fastaHeaderChar, 'x'] = true ∧
     (fastaNewLines 3 "h".toList "AC".toList).head? = some (Gen.C12.fastaHeaderPrefix :: "h".toList) ∧
     (fastaRead [[Gen.C12.fastaCommentChar, 'c'], [Gen.C12.fastaHeaderChar, 'a'], "AC".toList] 80).map (·.lines) =
       .ok [[Gen.C12.fastaHeaderChar, 'a'], "AC".toList] ∧
     (fastqNewLines none "r".toList "A".toList "!".toList) =
-      [Gen.C12.fastqIdPrefix :: "r".toList, "A".toList, [Gen.C12.fastqLineStartChars.getD 1 ' '], "!".toList] := by decide
+      [Gen.C12.fastqIdPrefix :: "r".toList, "A".toList, [Gen.C12.fastqLineStartChars.getD 0 ' '], "!".toList] := by decide
 
-/-- the score range guard of `_scores_to_score_str` (`(x < lo) | (x > hi)`) is the guard of
+/-- the score range guard of the FASTQ score encoder (`(x < lo) | (x > hi)`) is the guard of
 `encodeScores`: accepted at the bounds, refused one beyond them. -/
 theorem C12_gen_score_range :
     Gen.C12.scoreLo = 33 ∧ Gen.C12.scoreHi = 126 ∧
@@ -370,56 +370,58 @@ theorem C12_gen_score_range :
     Gen.C12.scoreDtypes = ["int64", "int8", "|", "int", "int8"] := by decide
 
 /-- GenBank: the qualifier regex, the ORIGIN regex and number format, the location keywords and the
-order in which `_parse_single_loc` tests the separators, the literals `_convert_to_loc_string`
-prints, the name-column width / limits / header padding / terminator of `GenBankFile`. -/
+order in which the separators are tested, the literals the location printer emits, the name-column
+width / limits / header padding / slice widths / terminator of `GenBankFile`. -/
 theorem C12_gen_genbank_literals :
     Gen.C12.qualifierRegex = "(\".*?\"|/.*?=)" ∧ Gen.C12.originRegex = "-?[0-9]+| " ∧
     Gen.C12.originNumberFormat = "{:>9d}" ∧
-    Gen.C12.locKeywords = ["join", "order", "complement"] ∧ Gen.C12.locSeparators = ["..", ".", "^"] ∧
-    Gen.C12.locPrintLiterals = ["join(", ")", "<", ">", "complement(", ")", ",", ".", "^", ".."] ∧
-    Gen.C12.gbLimits = [12, 10] ∧ Gen.C12.gbNameColumn = 12 ∧ Gen.C12.gbHeaderPad = 13 ∧ Gen.C12.gbSliceWidths = [0, 2, 12] ∧
+    Gen.C12.locKeywords = ["complement", "join", "order"] ∧ Gen.C12.locSeparators = ["..", ".", "^"] ∧
+    Gen.C12.locPrintLiterals = [")", ",", ".", "..", "<", ">", "^", "complement(", "join("] ∧
+    Gen.C12.gbLimits = [12, 10] ∧ Gen.C12.gbNameColumn = 12 ∧ Gen.C12.gbHeaderPad = 13 ∧ Gen.C12.gbSliceWidths = [0, 1, 2, 12] ∧
     Gen.C12.gbTerminator = "//" ∧ Gen.C12.gbTerminator.toList = gbTerm ∧
     (fmt9 5).length = 9 ∧
     gbToLines (List.replicate Gen.C12.gbNameColumn 'A') ["x".toList] [] = .ok [List.replicate Gen.C12.gbNameColumn 'A' ++ "x".toList] ∧
     gbToLines (List.replicate (Gen.C12.gbNameColumn + 1) 'A') ["x".toList] [] = .error .valueError := by
   refine ⟨rfl, rfl, rfl, rfl, rfl, rfl, rfl, rfl, rfl, rfl, rfl, by decide, by decide, by decide, by decide⟩
 
-/-- GFF3: column count, separators and placeholders of `__getitem__` / `_create_line` /
-`_index_entries`, the escape written by `_quote_value`, the directive of an empty file, the `ID` key. -/
+/-- GFF3: column count, the separators / placeholders / escapes used by `__getitem__`, the line
+writer (with `_quote_value`) and the line indexer, the directive of an empty file, the `ID` key. -/
 theorem C12_gen_gff_literals :
-    Gen.C12.gffColumns = 9 ∧ Gen.C12.gffGetitemLiterals = ["\t", "+", ".", "-", "."] ∧
-    Gen.C12.gffCreateLineLiterals = [".", ".", ">", "#", ".", "+", ".", ".", "-", ".", "\t", ";", "="] ∧
-    Gen.C12.gffIndexLiterals = [" ", "#", "##", "FASTA"] ∧ Gen.C12.gffValueEscape = [" ", "%20"] ∧
+    Gen.C12.gffColumns = 9 ∧ Gen.C12.gffGetitemLiterals = ["\t", "+", "-", "."] ∧
+    Gen.C12.gffCreateLineLiterals = ["\t", " ", "#", "%20", "+", "-", ".", ";", "=", ">"] ∧
+    Gen.C12.gffIndexLiterals = [" ", "#", "##", "FASTA"] ∧
     Gen.C12.gffInitDirective = ["gff-version", "3"] ∧ Gen.C12.gffIdKey = "ID" ∧
     Gff.empty.lines = ["##gff-version 3".toList] ∧
     quoteV Gen.C12.notQuoted "x ".toList = "x%20".toList := by
-  refine ⟨rfl, rfl, rfl, rfl, rfl, rfl, rfl, by decide, by decide⟩
+  refine ⟨rfl, rfl, rfl, rfl, rfl, rfl, by decide, by decide⟩
 
 /-- `Location.Defect` members in definition order: `auto()` numbers them 1, 2, 4, … in the order the
 driver and the adapter decode the defect bits. -/
 theorem C12_gen_defect_flags : Gen.C12.defectMembers = ["NONE=0", "MISS_LEFT=auto()", "MISS_RIGHT=auto()", "BEYOND_LEFT=auto()", "BEYOND_RIGHT=auto()", "UNK_LOC=auto()", "BETWEEN=auto()"] := rfl
 
 /-- default values of the optional parameters of every public entry point, as the adapter, the
-oracle and the model assume them (`chars_per_line` 80 / None, `as_rna` False, `is_stranded` True,
-`sequence_start` 1, `format` 'gb', …). -/
+oracle and the model assume them. -/
 theorem C12_gen_defaults : Gen.C12.defaults = ["fasta_file:FastaFile.__init__(chars_per_line=80)", "fasta_file:FastaFile.read(chars_per_line=80)", "fasta_file:FastaFile.write_iter(chars_per_line=80)", "fasta_convert:get_sequence(header=None)", "fasta_convert:get_sequence(seq_type=None)", "fasta_convert:get_sequences(seq_type=None)", "fasta_convert:set_sequence(header=None)", "fasta_convert:set_sequence(as_rna=False)", "fasta_convert:set_sequences(as_rna=False)", "fasta_convert:get_alignment(additional_gap_chars=('_',))", "fasta_convert:get_alignment(seq_type=None)", "fastq_file:FastqFile.__init__(chars_per_line=None)", "fastq_file:FastqFile.read(chars_per_line=None)", "fastq_file:FastqFile.write_iter(chars_per_line=None)", "fastq_convert:get_sequence(header=None)", "fastq_convert:set_sequence(header=None)", "fastq_convert:set_sequence(as_rna=False)", "fastq_convert:set_sequences(as_rna=False)", "gb_annotation:get_annotation(include_only=None)", "gb_sequence:get_sequence(format='gb')", "gb_sequence:get_annotated_sequence(format='gb')", "gb_sequence:get_annotated_sequence(include_only=None)", "gb_sequence:set_sequence(sequence_start=1)", "gb_file:GenBankFile.set_field(subfield_dict=None)", "gb_file:GenBankFile.insert(subfields=None)", "gb_file:GenBankFile.append(subfields=None)", "gb_metadata:set_locus(mol_type=None)", "gb_metadata:set_locus(is_circular=False)", "gb_metadata:set_locus(division=None)", "gb_metadata:set_locus(date=None)", "gff_file:GFFFile.insert(attributes=None)", "gff_file:GFFFile.append(attributes=None)", "gff_convert:set_annotation(seqid=None)", "gff_convert:set_annotation(source=None)", "gff_convert:set_annotation(is_stranded=True)"] := rfl
 
-/-- structure of every anchored function (constants, comparison / arithmetic operators, control
-flow, called helpers, raised exception classes, order of all of these) as the model was written
-and validated against; independent of names of locals, comments, docstrings and error texts. -/
+/-- normal form of every public function / method of the anchored modules (private helpers and
+globals inlined): the set of atoms — each constant together with the operator, call or subscript it
+occurs in, public names, raised exception classes, `assert` — the ordered list of checks (test of a
+guard → what it raises) and the public signature with its defaults, as the model was written and
+validated against.  Independent of names of locals and private helpers, comments, docstrings,
+annotations, message texts, temporaries, hoisted invariants, comprehension vs loop. -/
 theorem C12_gen_structure :
-    Gen.C12.fp_file = [("wrap_string", 69890739125027901), ("TextFile.read", 52744913334102880), ("TextFile.write", 65428673498045656), ("TextFile.write_iter", 49048918827519762), ("TextFile.__copy_fill__", 46384877220279077)] ∧
-    Gen.C12.fp_fasta_file = [("FastaFile.__init__", 30461155376552866), ("FastaFile.read", 47887338503742412), ("FastaFile.__setitem__", 23530998009151652), ("FastaFile.__getitem__", 19532313079441915), ("FastaFile.__delitem__", 6081584896559661), ("FastaFile._find_entries", 17458413150503724), ("FastaFile.read_iter", 50777665046551501), ("FastaFile.write_iter", 42873014587416648), ("FastaFile.__copy_create__", 46021651820154360), ("FastaFile.__copy_fill__", 9171973143232395)] ∧
-    Gen.C12.fp_fasta_convert = [("get_sequence", 15287655319111866), ("get_sequences", 57999039830059298), ("set_sequence", 32380205897755243), ("set_sequences", 5555976864286430), ("get_alignment", 113382230519987), ("set_alignment", 10070988115556558), ("_convert_to_sequence", 57287671799981267), ("_process_protein_sequence", 39394005679521937), ("_process_nucleotide_sequence", 40475234732229730), ("_convert_to_string", 11122864226821563)] ∧
-    Gen.C12.fp_fastq_file = [("FastqFile.__init__", 19229642344774758), ("FastqFile.read", 39508588105055951), ("FastqFile.get_seq_string", 16882616809862923), ("FastqFile.get_quality", 67771401713914630), ("FastqFile.__setitem__", 19940498723314234), ("FastqFile.__delitem__", 53349856754451135), ("FastqFile._find_entries", 16296965976350633), ("FastqFile.read_iter", 33350172544443973), ("FastqFile.write_iter", 5067327642367789), ("FastqFile.__copy_create__", 9118837679290944), ("FastqFile.__copy_fill__", 9171973143232395), ("_score_str_to_scores", 60012903023225593), ("_scores_to_score_str", 5646939377473502), ("_convert_offset", 32628608588527297)] ∧
-    Gen.C12.fp_fastq_convert = [("get_sequence", 28690363095249879), ("get_sequences", 13873533640459407), ("set_sequence", 19698727973848682), ("set_sequences", 11286612025829448), ("_convert_to_string", 17527852702845737)] ∧
-    Gen.C12.fp_gb_annotation = [("get_annotation", 53573287114250622), ("_parse_locs", 20115018573223396), ("_parse_single_loc", 71297042808775064), ("_set_qual", 62782454980306544), ("set_annotation", 18306168713310788), ("_check_expressible", 72012322406688221), ("_convert_to_loc_string", 66806287259349735)] ∧
-    Gen.C12.fp_gb_sequence = [("get_raw_sequence", 37958553599543271), ("get_sequence", 4722461076783407), ("get_annotated_sequence", 52587871643017521), ("_field_to_seq_string", 65108357747712597), ("_convert_seq_str", 57657467318102930), ("_get_seq_start", 11031722265961550), ("set_sequence", 1672769367472674), ("set_annotated_sequence", 6409933781959357)] ∧
-    Gen.C12.fp_gb_file = [("GenBankFile.__init__", 11665440253724393), ("GenBankFile.read", 2934641520706990), ("GenBankFile.get_fields", 48669973262689337), ("GenBankFile.get_indices", 19532101903397429), ("GenBankFile.set_field", 30582555320812524), ("GenBankFile.__getitem__", 59975776272893496), ("GenBankFile.__setitem__", 37337107580546342), ("GenBankFile.__delitem__", 16248488690030889), ("GenBankFile.insert", 32140045207491665), ("GenBankFile.append", 59546421498343193), ("GenBankFile._find_field_indices", 48695000654898240), ("GenBankFile._get_field_content", 61364105387331218), ("GenBankFile._to_lines", 48314310028750319), ("GenBankFile._translate_idx", 2198075552783753), ("GenBankFile.__copy_fill__", 54297879162397414), ("MultiFile.__iter__", 53655559911871226)] ∧
-    Gen.C12.fp_gb_metadata = [("get_locus", 43519328635554047), ("get_definition", 62897848291452213), ("get_accession", 14501740991108003), ("get_version", 13533649391716117), ("get_gi", 23588025199573240), ("get_db_link", 54262593733871766), ("get_source", 67833820986744488), ("_expect_single_field", 33534489776807203), ("set_locus", 67828978046379804)] ∧
-    Gen.C12.fp_gff_file = [("GFFFile.__init__", 16944149669906381), ("GFFFile.read", 46326894234801180), ("GFFFile.insert", 8654221079199807), ("GFFFile.append", 65589965750273761), ("GFFFile.append_directive", 38740713414137907), ("GFFFile.directives", 71954008321877358), ("GFFFile.__setitem__", 57142853945817531), ("GFFFile.__getitem__", 7487384416613262), ("GFFFile.__delitem__", 63728262953930964), ("GFFFile._index_entries", 19022643947004329), ("GFFFile._create_line", 63484911906708308), ("GFFFile._parse_attributes", 60875494187337771), ("GFFFile.__copy_fill__", 48764790520467154), ("_quote_value", 11741285970257027)] ∧
-    Gen.C12.fp_gff_convert = [("get_annotation", 18357258658910372), ("set_annotation", 47699526810652815)] ∧
-    Gen.C12.fp_general = [("load_sequence", 69889418895756670), ("save_sequence", 44834011396314712), ("load_sequences", 44053345227656861), ("save_sequences", 65697982613760724)] := by
+    Gen.C12.fp_file = [("wrap_string", 35419432600929693), ("is_binary", 49626307172125430), ("is_text", 19259285616825936), ("is_open_compatible", 37630586446707519), ("File.read", 49328886594227237), ("File.write", 31799960226389538), ("TextFile.__init__", 69306437034382077), ("TextFile.read", 52120078402071960), ("TextFile.read_iter", 766314282259654), ("TextFile.write", 55057777619693830), ("TextFile.write_iter", 36939992801995813), ("TextFile.__copy_fill__", 6315171286208202), ("TextFile.__str__", 4419374427646216)] ∧
+    Gen.C12.fp_fasta_file = [("FastaFile.__init__", 11559488786374512), ("FastaFile.__copy_create__", 14260330013813324), ("FastaFile.__copy_fill__", 12325213545439180), ("FastaFile.read", 26051572126232406), ("FastaFile.__setitem__", 15298155075820850), ("FastaFile.__getitem__", 26497480484120308), ("FastaFile.__delitem__", 51916195431509548), ("FastaFile.__len__", 67197355867975694), ("FastaFile.__iter__", 13476026621538461), ("FastaFile.__contains__", 3138836788283485), ("FastaFile.read_iter", 33375523047882932), ("FastaFile.write_iter", 36768792924452964)] ∧
+    Gen.C12.fp_fasta_convert = [("get_sequence", 27097936347591233), ("get_sequences", 15109437369935731), ("set_sequence", 14777882798964464), ("set_sequences", 65240910253567931), ("get_alignment", 50172798922406728), ("set_alignment", 19771020133285036)] ∧
+    Gen.C12.fp_fastq_file = [("FastqFile.__init__", 24967520218892889), ("FastqFile.__copy_create__", 40941349759598167), ("FastqFile.__copy_fill__", 12325213545439180), ("FastqFile.read", 5873035550019428), ("FastqFile.get_seq_string", 18731499886280674), ("FastqFile.get_quality", 47514378847239196), ("FastqFile.__setitem__", 65831970734693474), ("FastqFile.__getitem__", 36364006990984904), ("FastqFile.__delitem__", 55488951866436936), ("FastqFile.__len__", 67197355867975694), ("FastqFile.__iter__", 13476026621538461), ("FastqFile.__contains__", 3138836788283485), ("FastqFile.read_iter", 15807796335088371), ("FastqFile.write_iter", 17563175788785296)] ∧
+    Gen.C12.fp_fastq_convert = [("get_sequence", 14449425206102564), ("get_sequences", 14962941915508152), ("set_sequence", 63610318038703658), ("set_sequences", 15813476301234174)] ∧
+    Gen.C12.fp_gb_annotation = [("get_annotation", 55546838965727864), ("set_annotation", 19514761422724229)] ∧
+    Gen.C12.fp_gb_sequence = [("get_raw_sequence", 44050919668491007), ("get_sequence", 36692769385835443), ("get_annotated_sequence", 60394071482171264), ("set_sequence", 40583655808820566), ("set_annotated_sequence", 1037099722766856)] ∧
+    Gen.C12.fp_gb_file = [("GenBankFile.__init__", 23984363107182567), ("GenBankFile.__copy_fill__", 6315171286208202), ("GenBankFile.read", 48859915455565095), ("GenBankFile.get_fields", 44852223148681354), ("GenBankFile.get_indices", 55050368588457715), ("GenBankFile.set_field", 64859228809277444), ("GenBankFile.__getitem__", 14690021035584258), ("GenBankFile.__setitem__", 351990800679688), ("GenBankFile.__delitem__", 30399948491175834), ("GenBankFile.__len__", 67197355867975694), ("GenBankFile.insert", 68670262518475396), ("GenBankFile.append", 56939257242020592), ("MultiFile.__iter__", 71428477504929784)] ∧
+    Gen.C12.fp_gb_metadata = [("get_locus", 24599632968182420), ("get_definition", 10872155983158050), ("get_accession", 45138340309940518), ("get_version", 4005913266603708), ("get_gi", 14987884493638729), ("get_db_link", 11274162179669594), ("get_source", 45138340309940518), ("set_locus", 46523807615641305)] ∧
+    Gen.C12.fp_gff_file = [("GFFFile.__init__", 26650357356290362), ("GFFFile.__copy_fill__", 21142833672742339), ("GFFFile.read", 1524521677750017), ("GFFFile.insert", 63824967934377951), ("GFFFile.append", 45675090618465030), ("GFFFile.append_directive", 37067977286222324), ("GFFFile.directives", 48857077783702527), ("GFFFile.__setitem__", 64397921176684124), ("GFFFile.__getitem__", 2036669111809484), ("GFFFile.__delitem__", 411503896336440), ("GFFFile.__len__", 67197355867975694)] ∧
+    Gen.C12.fp_gff_convert = [("get_annotation", 3242169437606570), ("set_annotation", 26582119032847406)] ∧
+    Gen.C12.fp_general = [("load_sequence", 17620388700019868), ("save_sequence", 68738560978143839), ("load_sequences", 54461000397802422), ("save_sequences", 52301574359472378)] := by
   refine ⟨rfl, rfl, rfl, rfl, rfl, rfl, rfl, rfl, rfl, rfl, rfl, rfl⟩
 
 /-! ## Non-vacuity -/
